@@ -487,6 +487,16 @@ func ruleLoadTimestampMax(c *Ctx) {
 		}
 	}
 	c.Check(okPrefix, rule, "EtcdKVGet in "+fnName(load), "scans all windows under the root path (WithPrefix)", P.pos(load.Pos()), "no prefix scan")
+	// ... and the prefix is the allocators' common root (every dc-location's window lies under it), not this allocator's own key
+	rootPath := P.Field("server/tso", "timestampOracle", "rootPath")
+	okRoot := false
+	for _, ci := range callsIn(load, false, get) {
+		args := ci.Common().Args
+		if len(args) >= 2 && isLoadOf(args[1], rootPath) {
+			okRoot = true
+		}
+	}
+	c.Check(okRoot, rule, "prefix of the scan in "+fnName(load), "the root path shared by the global and all local allocators", P.pos(load.Pos()), "")
 }
 
 // ruleWallClockHelpers: the window test "stored window − next physical" and the
